@@ -37,7 +37,8 @@ PROPS = {
     "C08": dict(engine="e1", level="fault_enumeration", rule="e4", evaluations_counter="crash.states", distinct="states"),
     "C33": dict(engine="e1", level="exploration", rule="e1-sync"),
     "C27": dict(engine="e1", level="exploration", rule="e5-access"),
-    "C28": dict(engine="e1", level="exploration", rule="e5-crash"),
+    "C28": dict(engine="e1", level="exploration", rule="e5-crash",
+                second=dict(engine="e1", job_property="C28c", rule="e5-conc", external=True, replay_attempts=3, must_reproduce=True, share=0.35)),
     "C10": dict(engine="e1", level="exploration", rule="e1-net"),
     "C23": dict(engine="e1", level="exploration", rule="e1-net"),
     "C22": dict(engine="e1", level="exploration", rule="e1-frame",
@@ -87,6 +88,11 @@ RULES = {
                  "advancing the fake clock 31 s, superseded by a later token, tampered, forged}, Host in {configured, localhost, foreign, whitelisted}, Origin/Referer in "
                  "{none, own, foreign, whitelisted}, credentials in {exact, none, wrong, user/password boundary shifted, user only}; whenever a stated condition fails the "
                  "status must be the refusal status of one of the failing conditions; non-trivial = at least 3 requests with a failing condition",
+    "e5-conc": "one run = the same real node as in the sequential phase, with 2-4 client goroutines sending 3-8 scripted requests each (wallet balance / listing / "
+               "transactions / label update / new address / encrypt / decrypt / create / unload / create-transaction, plus balance and inject) through the real handler at the same time; "
+               "every acquisition of the wallet service lock (hook H9: sync.RWMutex semantics, waiters block durably) and every gap between two requests is a scheduling point decided "
+               "by the tape (a goroutine inside a database transaction is never parked); a request that never returns - every remaining client blocked, nothing left to schedule, one "
+               "simulated minute passed - is a violation, panics and statuses are judged as in the sequential phase; non-trivial = at least 10 scheduling decisions",
     "e5-crash": "one run = a real node with a chain of 2-6 blocks, a non-empty pool, two wallets and kv data; 20-80 requests over all documented routes and methods with "
                 "parameters built from live state (addresses, output ids, transaction ids, raw transactions: pooled, confirmed, spending spent outputs, malformed, truncated) "
                 "and mutated (missing, huge, negative, non-UTF-8, wrong content type, malformed JSON, oversized bodies); a panic, a status outside 200-599, an unparsable "
@@ -271,9 +277,9 @@ def match_known(known, prop, v):
     return None
 
 
-def replay_once(binary, prop, tier, found, scratch, tag):
+def replay_once(binary, prop, tier, found, scratch, tag, jp=None):
     out = os.path.join(scratch, "replay-%s.json" % tag)
-    job = dict(property=prop, profile="default", tier=tier, seed=0, first=0, stride=1, max_runs=1, budget_s=0, out=out,
+    job = dict(property=jp or prop, profile="default", tier=tier, seed=0, first=0, stride=1, max_runs=1, budget_s=0, out=out,
                scratch=scratch, replay_tape=found["tape"] or [0], replay_seed=found["run_seed"], shrink_budget=0)
     p = run_worker(binary, job, os.path.join(scratch, "replay-job-%s.json" % tag), 600)
     try:
@@ -286,9 +292,9 @@ def replay_once(binary, prop, tier, found, scratch, tag):
     return json.load(open(out))
 
 
-def shrink_external(binary, prop, tier, found, scratch, tag, wall_s):
+def shrink_external(binary, prop, tier, found, scratch, tag, wall_s, jp=None):
     out = os.path.join(scratch, "%s.json" % tag)
-    job = dict(property=prop, profile="default", tier=tier, seed=0, first=0, stride=1, max_runs=1, budget_s=0, out=out, scratch=scratch,
+    job = dict(property=jp or prop, profile="default", tier=tier, seed=0, first=0, stride=1, max_runs=1, budget_s=0, out=out, scratch=scratch,
                replay_tape=found["tape"] or [0], replay_seed=found["run_seed"], replay_class=found["violation"]["class"],
                replay_sig=found["violation"]["signature"], shrink_external=True, shrink_budget=250 if tier == "quick" else 1500, shrink_wall_s=wall_s)
     p = run_worker(binary, job, os.path.join(scratch, "%s-job.json" % tag), wall_s)
@@ -352,7 +358,7 @@ def main():
             spec2 = dict(spec, **second)
             code2, ev2 = explore(binary2, prop, tier, seed, b2, a.workers, a.max_runs, scratch, spec2, second["engine"], build2_s, t2)
             code = max(code, code2)
-            ev = merge_evidence(ev, ev2, engine, second["engine"])
+            ev = merge_evidence(ev, ev2, spec.get("rule", engine), spec2.get("rule", second["engine"]))
         else:
             code, ev = explore(binary, prop, tier, seed, budget, a.workers, a.max_runs, scratch, spec, engine, build_s, t_start)
         write_evidence(prop, ev)
@@ -368,7 +374,7 @@ def do_replay(binary, prop, path, scratch):
     found = dict(tape=r["tape"], run_seed=r["run_seed"])
     attempts = r.get("replay_attempts", 1)
     for i in range(attempts):
-        s = replay_once(binary, prop, r.get("tier", "quick"), found, scratch, "r%d" % i)
+        s = replay_once(binary, prop, r.get("tier", "quick"), found, scratch, "r%d" % i, r.get("job_property"))
         if s is None or s.get("harness_error"):
             die("replay run failed: %s" % (s or {}).get("harness_error"))
         for line in s.get("replay_log", [])[-40:]:
@@ -413,6 +419,7 @@ def do_determinism(binary, prop, tier, seed, n, scratch):
 
 def explore(binary, prop, tier, seed, budget, workers, max_runs, scratch, spec, engine, build_s, t_start):
     external = bool(spec.get("external"))
+    jp = spec.get("job_property", prop)
     shrink = 0 if external else (400 if tier == "thorough" else 150)
     known_sigs = [k["class"] + "|" + k["signature"] for k in load_known() if k["property"] == prop]
     t_explore = time.time()
@@ -420,7 +427,7 @@ def explore(binary, prop, tier, seed, budget, workers, max_runs, scratch, spec, 
     def start(w, first, gen):
         out = os.path.join(scratch, "w%d-%d.json" % (w, gen))
         left = budget - (time.time() - t_explore)
-        job = dict(property=prop, profile="default", tier=tier, seed=seed, first=first, stride=workers, max_runs=max_runs, budget_s=max(left, 0.001), out=out,
+        job = dict(property=jp, profile="default", tier=tier, seed=seed, first=first, stride=workers, max_runs=max_runs, budget_s=max(left, 0.001), out=out,
                    scratch=scratch, shrink_budget=shrink, known=known_sigs)
         return [run_worker(binary, job, os.path.join(scratch, "job%d-%d.json" % (w, gen)), left), out, w, gen]
 
@@ -489,6 +496,7 @@ def explore(binary, prop, tier, seed, budget, workers, max_runs, scratch, spec, 
             new_violations.append(f)
 
     code = 0
+    unreproduced = 0
     replay_paths = []
     os.makedirs(os.path.join(VERIF, "replays"), exist_ok=True)
     for k, f in known_hits:
@@ -498,13 +506,13 @@ def explore(binary, prop, tier, seed, budget, workers, max_runs, scratch, spec, 
         attempts = spec.get("replay_attempts", 1)
         if external and i < 2:
             # minimise in fresh processes (only the first two distinct violations: each costs up to a minute) (a failed run of this engine cannot be repeated inside one process)
-            m = shrink_external(binary, prop, tier, f, scratch, "shrink%d" % i, 60 if tier == "quick" else 600)
+            m = shrink_external(binary, prop, tier, f, scratch, "shrink%d" % i, 60 if tier == "quick" else 600, jp)
             if m is not None:
                 f = dict(f, tape=m["tape"], minimised=True, shrink_runs=m.get("shrink_runs", 0), orig_tape_len=f.get("orig_tape_len", len(f["tape"])))
         # confirm in a fresh process before reporting
         ok, s, hits = False, None, 0
         for a in range(attempts):
-            s1 = replay_once(binary, prop, tier, f, scratch, "confirm%d-%d" % (i, a))
+            s1 = replay_once(binary, prop, tier, f, scratch, "confirm%d-%d" % (i, a), jp)
             if bool(s1 and not s1.get("harness_error") and s1["found"] and s1["found"][0]["violation"]["class"] == v["class"]
                     and s1["found"][0]["violation"]["signature"] == v["signature"]):
                 hits += 1
@@ -512,6 +520,13 @@ def explore(binary, prop, tier, seed, budget, workers, max_runs, scratch, spec, 
                     ok, s = True, s1
                 if not external:
                     break
+        if not ok and spec.get("must_reproduce"):
+            # this engine's runs are exact functions of the tape: an observation that three fresh processes do not
+            # repeat is not attributed to the code under test (it is kept in the evidence notes)
+            print("UNREPRODUCED: %s/%s of run seed %d did not repeat in %d fresh processes; not reported" % (v["class"], v["signature"], f["run_seed"], attempts))
+            notes.append("unreproduced observation: %s | %s | run seed %d" % (v["class"], v["signature"], f["run_seed"]))
+            unreproduced += 1
+            continue
         if not ok:
             if not external:
                 die("violation %s/%s of run seed %d did not reproduce in a fresh process (replay must be exact in this engine)" % (v["class"], v["signature"], f["run_seed"]))
@@ -519,7 +534,7 @@ def explore(binary, prop, tier, seed, budget, workers, max_runs, scratch, spec, 
             s = dict(found=[dict(log_hash=f.get("log_hash", ""), log_tail=f.get("log_tail", []))])
         f["reproduced"] = "%d/%d" % (hits, attempts)
         path = os.path.join(VERIF, "replays", "%s-%d-%s.json" % (prop, f["run_seed"], hashlib.sha1((v["class"] + v["signature"]).encode()).hexdigest()[:6]))
-        rec = dict(property=prop, engine=engine, tier=tier, violation=v, run_seed=f["run_seed"], base_seed=seed, run_index=f["run_index"],
+        rec = dict(property=prop, engine=engine, job_property=jp, tier=tier, violation=v, run_seed=f["run_seed"], base_seed=seed, run_index=f["run_index"],
                    tape=f["tape"], original_tape_len=f["orig_tape_len"], minimised=f["minimised"], shrink_runs=f["shrink_runs"],
                    knobs=f["knobs"], fault_counts={k2: v2 for k2, v2 in f["counters"].items() if k2.startswith(("fault.", "mut.", "bm."))},
                    log_hash=s["found"][0]["log_hash"], log_tail=s["found"][0]["log_tail"],
@@ -537,7 +552,7 @@ def explore(binary, prop, tier, seed, budget, workers, max_runs, scratch, spec, 
     probes = {k: v for k, v in sorted(counters.items()) if k.startswith("probe.")}
     other = {k: v for k, v in sorted(counters.items()) if not k.startswith(("fault.", "mut.", "bm.", "probe."))}
     evidence = dict(
-        property_id=prop, tier=tier, seed=seed, level=spec["level"], wall_s=round(wall, 2), violations=len(new_violations),
+        property_id=prop, tier=tier, seed=seed, level=spec["level"], wall_s=round(wall, 2), violations=len(new_violations) - unreproduced,
         coverage=dict(
             evaluations=counters.get(spec["evaluations_counter"], 0) if "evaluations_counter" in spec else runs,
             distinct_nontrivial=len(sts) if spec.get("distinct") == "states" else len(nts), rule=RULES[spec.get("rule", engine)],
@@ -554,7 +569,7 @@ def explore(binary, prop, tier, seed, budget, workers, max_runs, scratch, spec, 
                      "go1.26.8 testing/synctest fake clock is faithful to time semantics"],
     )
     print("%s %s: %d runs (%d distinct, %d non-trivial), %d steps, %.0f simulated s, %d undecided, %d known finding(s), %d violation(s), %.1f s wall"
-          % (prop, tier, runs, len(fps), len(nts), steps, sim_ns / 1e9, undecided, len(known_hits), len(new_violations), wall))
+          % (prop, tier, runs, len(fps), len(nts), steps, sim_ns / 1e9, undecided, len(known_hits), len(new_violations) - unreproduced, wall))
     return code, evidence
 
 
